@@ -8,6 +8,7 @@ of successful responses, MDIB + subscription snapshots around rejected requests,
 """
 from __future__ import annotations
 
+import itertools
 import copy
 import glob
 import json
@@ -213,10 +214,28 @@ class Env:
                         settled = False
                         time.sleep(0.3)
         if self.deferred:
+            disp = self.consumer._services_dispatcher
+            if not disp._worker.is_alive():
+                if not getattr(self, '_worker_death_reported', False):
+                    self._worker_death_reported = True
+                    self.ctx.witness('consumer.dispatcher_thread_died', 'an exception escaped the worker of the consumer\'s deferred dispatcher: the event '
+                                     'sink still answers 200 but processes nothing any more (its bounded queue fills, then requests block for ever)',
+                                     {'last_request': self.current_request[:600].decode('latin-1')})
+                return settled
             ev = threading.Event()
-            self.consumer._services_dispatcher._queue.put((lambda _req: ev.set(), None, 'barrier'))
+            disp._queue.put((lambda _req: ev.set(), None, 'barrier'))
             if not ev.wait(8):
+                if not disp._worker.is_alive():
+                    return self.quiesce_dead_worker(settled)
                 self.ctx.not_decided('deferred dispatcher did not reach the barrier within the watchdog')
+        return settled
+
+    def quiesce_dead_worker(self, settled):
+        if not getattr(self, '_worker_death_reported', False):
+            self._worker_death_reported = True
+            self.ctx.witness('consumer.dispatcher_thread_died', 'an exception escaped the worker of the consumer\'s deferred dispatcher: the event sink '
+                             'still answers 200 but processes nothing any more (its bounded queue fills, then requests block for ever)',
+                             {'last_request': self.current_request[:600].decode('latin-1')})
         return settled
 
     def prune_subscriptions(self, keep=6):
@@ -502,17 +521,23 @@ def m_structure(rng, env, seed):
     return render(seed, xml=doc), {'mut': f's.{kind}', 'doc': doc}
 
 
+_HUGE_EXPONENTS = itertools.cycle([5000, 19, 4300, 10, 30, 4299, 18, 400])
+
 def m_path(rng, env, seed, kind=None):
     p = seed['path']
     parts = p.split('/')
     kind = kind or rng.choice(['depth_less', 'depth_more', 'unknown_first', 'double_slash', 'query', 'long', 'nonascii', 'other_service', 'root', 'star',
-                       'absolute_uri', 'dots', 'get_on_post_path', 'post_on_get_path', 'query_only', 'query_only', 'control_char'])
+                       'absolute_uri', 'dots', 'get_on_post_path', 'post_on_get_path', 'query_only', 'query_only', 'control_char',
+                       'malformed_uri', 'malformed_uri', 'depth_more_hostile', 'depth_more_hostile'])
     method = seed['method']
     xml = seed['xml']
     if kind == 'depth_less':
         p = '/'.join(parts[:max(1, len(parts) - rng.randrange(1, 3))]) or '/'
     elif kind == 'depth_more':
         p = p.split('?')[0].rstrip('/') + '/' + '/'.join(rng.choice(['x', 'Get', 'subscr1', '..', '%2e%2e', 'a' * 300]) for _ in range(rng.randrange(1, 4)))
+    elif kind == 'depth_more_hostile':
+        # ignored trailing path elements with text that is no valid URI / not representable in XML (it may be echoed into addresses of responses)
+        p = p.split('?')[0].rstrip('/') + '/' + rng.choice(['%zz', '[', '100%', 'a#b#c', '\x01', 'a b', '<x>', '%', ']]>', '\x7f', 'a\\b', '{}', '^'])
     elif kind == 'unknown_first':
         p = '/' + rng.choice(['nope', 'favicon.ico', parts[1][:-1] if len(parts) > 1 else 'x', parts[1].upper() if len(parts) > 1 else 'X', '%00']) + '/' + '/'.join(parts[2:])
     elif kind == 'double_slash':
@@ -532,6 +557,12 @@ def m_path(rng, env, seed, kind=None):
         p = '*'
     elif kind == 'absolute_uri':
         p = 'http://127.0.0.1:50001' + p
+    elif kind == 'malformed_uri':
+        # request targets that the URL splitter of the standard library refuses (unbalanced IPv6 brackets, invalid port, NFKC tricks)
+        p = rng.choice(['http://[::1/x', 'http://[/', '//[x' + p, 'http://[::1]x' + p, 'http://a]' + p, 'https://[v1.fe80::a+en1' + p,
+                        'http://127.0.0.1:5x' + p, '//\u2100' + p, 'http://[::1' + p])
+        if rng.random() < 0.3:
+            method, xml = 'GET', b''
     elif kind == 'dots':
         p = '/../' + p
     elif kind == 'control_char':
@@ -698,7 +729,7 @@ def m_framing(rng, env, seed, kind=None):
     elif kind == 'cl_large':
         raw = req([('Content-Length', str(n + rng.choice([1, 2, 100, 10 ** 6])))], xml)
     elif kind == 'cl_huge':
-        raw = req([('Content-Length', str(10 ** rng.choice([10, 18, 19, 30, 400])))], xml)
+        raw = req([('Content-Length', '1' + '0' * next(_HUGE_EXPONENTS))], xml)   # all of them in every run (str(int) refuses > 4300 digits)
     elif kind == 'cl_dup':
         raw = req([('Content-Length', str(n)), ('Content-Length', str(rng.choice([0, n, n + 5])))], xml)
     elif kind == 'cl_and_te':
@@ -1164,8 +1195,12 @@ def _directed(env, rng):
     gets = [s for s in env.seeds if s['method'] == 'GET'][:1]
     for s in list(post.values()) + gets:
         for k in ('query_only', 'query_only', 'query_only', 'unknown_first', 'root', 'star', 'depth_less', 'other_service', 'control_char', 'control_char',
-                  'control_char'):
+                  'control_char', 'malformed_uri', 'malformed_uri', 'malformed_uri'):
             out.append((s, lambda r, e, sd, k=k: m_path(r, e, sd, k)))
+    for s in env.seeds:
+        if s['role'] == 'consumer' or s['name'] in ('Subscribe', 'Renew', 'GetStatus', 'Unsubscribe'):
+            for k in ('depth_less', 'depth_more', 'depth_more_hostile', 'depth_more_hostile'):
+                out.append((s, lambda r, e, sd, k=k: m_path(r, e, sd, k)))
     for s in env.seeds:
         out.append((s, m_valid))
     return out
